@@ -116,7 +116,83 @@ def explore(item):
     return out
 
 
+def explore_chdir(item):
+    """two calls with the process changing its working directory in between: every relative spelling (the default `./bindings`, a
+    relative export_all_to argument) means the directory below the working directory AT THE TIME OF THE CALL"""
+    cfg, (e1, t1), (e2, t2), to = item
+    ex = Explorer(time_budget=G.get('time_budget'))
+    tdefs = universe()
+    out = {'violations': [], 'samples': [], 'obligations': 0, 'discharged': 0, 'models': set(), 'inconclusive': []}
+    cwds = [CWD, CWD + '/w2']
+
+    def harness(ctx):
+        m = W.machine(ctx, cfg, CWD, None)
+        W.install(m, tdefs)
+        fs = m.env['fs']
+        results, per_dir = [], {}
+        for k, (e, t) in enumerate(((e1, t1), (e2, t2))):
+            if k == 1:
+                fs.mkdirs(cwds[1])
+                fs.cwd = cwds[1]
+                m.env['cwd'] = o(cwds[1])
+            r = W.call_entry(m, ENTRIES[e], t, to)
+            results.append(r)
+            if r is None:
+                bind = W.norm_path(cwds[k], to if ENTRIES[e] == 'export_all_to' else 'bindings')
+                for j in ([t] if ENTRIES[e] == 'export' else W.closure(tdefs, t)):
+                    per_dir.setdefault(bind, {})[j] = bind
+        out['models'].update(m.calls)
+        return results, per_dir, W.files_of(fs)
+    try:
+        for pc, (results, per_dir, files) in ex.run(harness):
+            out['obligations'] += 1
+            why = None
+            for (e, t), r in zip(((e1, t1), (e2, t2)), results):
+                if r is not None and r[0] == 'panic':
+                    why = f'{ENTRIES[e]}({tdefs[t].name}) panics: {r[1]}'
+                elif (tdefs[t].out is None) != (r is not None):
+                    why = f'{ENTRIES[e]}({tdefs[t].name}) -> {r}'
+            if why is None:
+                want = {}
+                for bind, exported in per_dir.items():
+                    want.update(W.expected_fs(CWD, tdefs, exported, cfg == 'esm'))
+                if dict(files) != want:
+                    diff = sorted(set(files) ^ set(want)) or [f for f in want if files.get(f) != want[f]]
+                    why = f'after a change of the working directory the files are not where the calls asked for them: {diff[:4]}'
+            if why is not None:
+                out['violations'].append({'cfg': cfg, 'env': None, 'to': to, 'init': 'empty', 'chdir': cwds[1], 'why': why,
+                                          'steps': [(ENTRIES[e1], t1, to), (ENTRIES[e2], t2, to)], 'engine_files': files})
+            else:
+                out['discharged'] += 1
+    except Unsupported as e:
+        out['inconclusive'].append(f'chdir {item}: {e}')
+    out.update(paths=ex.paths, nontrivial=ex.nontrivial, queries=ex.queries, solver_s=ex.solver_s)
+    out['models'] = sorted(out['models'])
+    return out
+
+
+def native_check_chdir(v):
+    tdefs = universe()
+    steps = [(e, t, d if e == 'export_all_to' else None) for e, t, d in v['steps']]
+    results, files = W.native_history(v['cfg'], None, tdefs, steps, None, [(1, 'mkdir', 'w2'), (1, 'chdir', 'w2')])
+    want, why = {}, None
+    for k, ((entry, t, d), r) in enumerate(zip(steps, results)):
+        if r[0] == 'panic':
+            why = f'{entry}({tdefs[t].name}) panics natively: {r[1]}'
+        elif r[0] == 'ok' and tdefs[t].out is not None:
+            bind = W.norm_path([CWD, CWD + '/w2'][k], d if entry == 'export_all_to' else 'bindings')
+            exported = {j: bind for j in ([t] if entry == 'export' else W.closure(tdefs, t))}
+            want.update(W.expected_fs(CWD, tdefs, exported, v['cfg'] == 'esm'))
+        elif (r[0] == 'ok') != (tdefs[t].out is not None):
+            why = f'{entry}({tdefs[t].name}) -> {r} natively'
+    if why is None and {f[len(CWD) + 1:]: c for f, c in want.items()} != files:
+        why = 'natively the files are not where the calls asked for them: ' + str(sorted(set(files) ^ {f[len(CWD) + 1:] for f in want})[:4])
+    return why is not None, {'why': why, 'results': results, 'files': files}
+
+
 def native_check(v):
+    if v.get('chdir'):
+        return native_check_chdir(v)
     """replay the history natively; returns (is_violation, details)"""
     tdefs = universe()
     import tempfile
@@ -190,12 +266,14 @@ def main():
                   'history_length': sorted({i[1] for i in items}), 'entry_points': ENTRIES,
                   'TS_RS_EXPORT_DIR spellings of <cwd>/bindings': ENV_SPELLINGS, 'export_all_to spellings': TO_SPELLINGS,
                   'initial_directory': ['empty', 'stale files at the targets (+ unrelated file)', 'previous run\'s output'], 'cells': len(items)}
-    rep.outside += ['symlinks', 'the process changing its working directory between calls', 'histories longer than the bound',
+    rep.outside += ['symlinks', 'more than one change of the working directory', 'histories longer than the bound',
                     'other universes (more types per file: C05)']
     rep.assumptions += ['file-system model: POSIX semantics without symlinks, validated against the real file system through the native helper',
                         'type names are concrete in this check (the registry and file names are keyed by them)']
     validate(rep, 6 if quick else 40)
-    results = par.pmap(explore, items)
+    chdir_items = [('plain', a, b, to) for a in ((0, 0), (1, 2), (2, 2)) for b in ((0, 1), (1, 2), (2, 0)) for to in (['out'] if quick else ['out', './o/../out/'])]
+    rep.bounds['change_of_working_directory'] = f'{len(chdir_items)} two-call histories with a chdir in between, default directory and a relative export_all_to argument'
+    results = par.pmap(explore, items) + par.pmap(explore_chdir, chdir_items)
     cand = []
     for r in results:
         cand += r.pop('violations', [])
